@@ -8,6 +8,7 @@ meaning on '/'-separated components; `LA.PathClean.stripAbsolute` is bsdtar's
 -/
 import LA.Lemmas.PathClean
 import LA.Lemmas.XtrConfine
+import LA.Lemmas.XtrDemo
 set_option linter.unusedSimpArgs false
 namespace LA.C04
 open LA.PathClean
@@ -257,6 +258,11 @@ theorem check_symlinks_sound (fl : XFlags) (hsec : fl.secureSymlinks = true) (p 
     subst this
     exact ⟨rfl, List.prefix_append _ _⟩
 
+/-- Non-vacuity: "a" in an empty target directory passes the check. -/
+example : NoLinkAt ((checkSymlinks {} false [97]).run demoProc).2.fs demoProc.cwd (compsOf [97]) :=
+  (check_symlinks_sound {} rfl [97] [97] (by decide) (by rw [cleanup_eq_spec _ _ (by decide)]; decide) (by decide)
+    demoProc demo_check).1
+
 /-- Entries are C strings. -/
 def EntryStrings (e : Entry) : Prop := NulFree e.path ∧ NulFree e.link
 
@@ -320,6 +326,20 @@ theorem extract_confined_partial (fl : XFlags) (es : List Entry) (S : Nat → Pr
     (fun e he => ⟨(hes e he).1.1, (hes e he).1.2, (hes e he).2⟩) pr h0
   exact ⟨this.inv.tree, this.inv.files, this.inv.refs, (run_env _ pr).1, (run_env _ pr).2⟩
 
+/-- Non-vacuity: the hypotheses hold for a sequence that plants a symlink to the outside, writes and
+hard-links through it, queues a fix-up for "d/." and then replaces "d" by a symlink to "/". -/
+example : Confined (fun _ => False) demoProc
+    ((extractArchive {} [
+        { kind := .symlink, path := [115], link := [46, 46] },                 -- s -> ..
+        { kind := .file, path := [115, 47, 111], data := [112] },              -- s/o
+        { kind := .hardlink, path := [104], link := [115, 47, 111] },          -- h => s/o
+        { kind := .dir, path := [100, 47, 46], mode := 448 },                  -- d/.
+        { kind := .symlink, path := [100], link := [47] } ]).run demoProc).2 :=
+  extract_confined_partial {} _ _ demoProc ⟨rfl, rfl, rfl⟩
+    (by intro e he; simp at he; rcases he with rfl | rfl | rfl | rfl | rfl <;>
+        exact ⟨⟨by decide, by decide⟩, by intro h; first | rfl | exact absurd h (by decide)⟩)
+    ⟨demo_tdir, demo_inside _, demo_wf, ⟨rfl, rfl, rfl⟩⟩
+
 /-- Offending names are refused with ARCHIVE_FAILED, never ARCHIVE_FATAL, without a
 single system call; the writer is left ready for the next entry. -/
 theorem refused_not_fatal (w : Writer) (e : Entry) (pr : Proc) (hfl : SecureFlags w.flags) (hp : NulFree e.path)
@@ -336,6 +356,10 @@ theorem refused_not_fatal (w : Writer) (e : Entry) (pr : Proc) (hfl : SecureFlag
   unfold header
   simp only [hx]
   rfl
+
+example : (header { flags := {} } { kind := .file, path := [46, 46, 47, 120] }).run demoProc   -- "../x"
+    = ((.failed, { flags := {}, cur := none }), demoProc) :=
+  refused_not_fatal _ _ _ ⟨rfl, rfl, rfl⟩ (by decide) (Or.inr (Or.inr (by decide)))
 
 /-- The process working directory and umask are the same after every call of the
 writer API as before it. -/
